@@ -46,8 +46,10 @@ struct Sqrt {
         o.fp = fpn(x);
         T in = make_rep<T>(x);
         mpz_class r;
+        int own_digits = -1;
         bool ok = guard(o, [&] {
             auto res = cnl::sqrt(in);
+            own_digits = cnl::digits_v<decltype(res)>;
             if constexpr (Kind == 1) {
                 static_assert(cnl::digits_v<decltype(res)> == (Digits + 1) / 2, "elastic sqrt result digits");
             }
@@ -60,8 +62,10 @@ struct Sqrt {
         if (!ok) return;
         if constexpr (Kind == 1) {
             mpz_class lim = (mpz_class(1) << ((Digits + 1) / 2)) - 1;
-            if (r > lim) return o.fail("elastic-result-exceeds-digits", "x=" + zstr(x) + " r=" + zstr(r));
+            if (r > lim) return o.fail("elastic-result-exceeds-halved-digits", "x=" + zstr(x) + " r=" + zstr(r));
         }
+        if (own_digits >= 0 && r > (mpz_class(1) << own_digits) - 1)
+            return o.fail("result-exceeds-its-own-declared-digits", "x=" + zstr(x) + " r=" + zstr(r) + " digits=" + std::to_string(own_digits));
         judge(x, r, o);
     }
     static void run(Words& w, Outcome& o, std::string* d) { check(draw_x(w, Digits), o, d); }
